@@ -30,6 +30,22 @@ impl<'a> OperationVisitor<'a, ValidationErrorContext> for LeafFieldSelections {
         user_context: &mut ValidationErrorContext,
         field: &crate::static_graphql::query::Field,
     ) {
+        // The meta field `__typename` is of type `String!` on every composite type, whether or
+        // not the schema document spells it out.
+        if field.name == "__typename"
+            && visitor_context.current_type().is_none()
+            && !field.selection_set.items.is_empty()
+        {
+            user_context.report_error(ValidationError {
+                error_code: self.error_code(),
+                locations: vec![field.position],
+                message: format!(
+                    "Field \"{}\" must not have a selection since type \"String!\" has no subfields.",
+                    field.name
+                ),
+            });
+        }
+
         if let (Some(field_type), Some(field_type_literal)) = (
             (visitor_context.current_type()),
             (visitor_context.current_type_literal()),
